@@ -227,7 +227,7 @@ def _run_property(modname: str, tier: str, seed: int, jobs: Optional[int] = None
         "extra_obligations": extra_obl,
         "solver_time_s": round(tot["solver_s"] + sum(o.get("time_s", 0) for o in extra_obl), 3),
         "max_decision_depth": tot["max_depth"],
-        "reachability_witnesses": {k: covers.get(k, 0) for k in required},
+        "reachability_witnesses": {k: covers.get(k, 0) for k in list(required) + sorted(set(covers) - set(required))},
         "trusted_base": list(getattr(mod, "TRUSTED", [])),
         "known_findings_hit": known_hit,
         "inconclusive": inconclusive,
